@@ -204,6 +204,9 @@ func (s *V2Session) buildAndSend(ctx context.Context, c ipmi.Command) error {
 		if err := s.validateWrapper(); err != nil {
 			return err
 		}
+		if err := validateResponseTo(c.Operation(), &s.messageLayer.Operation); err != nil {
+			return err
+		}
 		code := s.messageLayer.CompletionCode
 		// must increment here, otherwise we'll miss temporary codes at the
 		// higher levels
